@@ -89,9 +89,9 @@ def property_theorems(pid):
 
 
 def source_hygiene():
-    """no Admitted/admit/Axiom/... anywhere in the development"""
+    """no Admitted/admit/Axiom/... anywhere in the development; Variable/Hypothesis only inside a Section"""
     bad = []
-    pat = re.compile(r"\b(Admitted|admit|Axiom|Axioms|Parameter|Parameters|Conjecture|Hypothesis|Variable|Unset\s+Guard|bypass_check|Admit\s+Obligations|type-in-type|impredicative-set)\b")
+    pat = re.compile(r"\b(Admitted|admit|Axiom|Axioms|Parameter|Parameters|Conjecture|Unset\s+Guard|bypass_check|Admit\s+Obligations|type-in-type|impredicative-set)\b")
     for root, _, files in os.walk(os.path.join(COQ, "theories")):
         for f in files:
             if f.endswith(".v"):
@@ -99,6 +99,12 @@ def source_hygiene():
                 txt = re.sub(r"\(\*.*?\*\)", "", txt, flags=re.S)
                 for m in pat.finditer(txt):
                     bad.append("%s: %s" % (os.path.join(root, f), m.group(0)))
+                depth = 0
+                for line in txt.splitlines():
+                    if re.match(r"\s*Section\s+\w+\s*\.", line): depth += 1
+                    elif re.match(r"\s*End\s+\w+\s*\.", line) and depth > 0: depth -= 1
+                    elif depth == 0 and re.match(r"\s*(Variable|Variables|Hypothesis|Hypotheses|Context)\b", line):
+                        bad.append("%s: %s outside a section" % (os.path.join(root, f), line.strip()[:40]))
     return bad
 
 
